@@ -233,6 +233,9 @@ impl LinkRelay<OutputHandle> {
         *old(self) is Receiver && r is Ok && r->Ok_0 is Some ==>
             transfer.delivery_id == Some(r->Ok_0->Some_0.0) && transfer.delivery_tag == Some(r->Ok_0->Some_0.1)
             && !(transfer.settled is Some && transfer.settled->Some_0) && old(self).rsm() == ReceiverSettleMode::Second && !old(self)->Receiver_more,   // [C02.relay.register-second] only the first frame of an unsettled delivery on a settle-second link is registered for the sender's settling disposition, under its own id and tag
+        *old(self) is Receiver && final(self)->Receiver_tx.failures@ == old(self)->Receiver_tx.failures@ && !(transfer.settled == Some(true)) && old(self).rsm() == ReceiverSettleMode::Second
+            && !old(self)->Receiver_more && transfer.delivery_id is Some && transfer.delivery_tag is Some
+            ==> r == Ok::<Option<(DeliveryNumber, DeliveryTag)>, LinkRelayError>(Some((transfer.delivery_id->Some_0, transfer.delivery_tag->Some_0))),   // [C02.relay.register-second-always] ... and every such first frame IS registered (an absent `settled` flag means unsettled): otherwise the sender's settling disposition would find nothing and the receiver would keep the delivery unsettled for ever
         *old(self) is Receiver ==> final(self)->Receiver_unsettled == old(self)->Receiver_unsettled && final(self)->Receiver_output_handle == old(self)->Receiver_output_handle
             && final(self)->Receiver_receiver_settle_mode == old(self)->Receiver_receiver_settle_mode,
 //@@ end
